@@ -26,7 +26,9 @@ pub fn check(cx: &Cx, rep: &mut Report) {
             rep.premise_n("C13.R1.items", yielded.len() as u64);
             let got: Vec<Uid> = items.iter().map(|i| i.msg).collect();
             let exp: Vec<Uid> = yielded.iter().map(|y| y.1).collect();
-            if got != exp {
+            // on L2 a yielded-but-unhandled item is only final once the actor has completed stopped()
+            let final_ok = !cx.mt || matches!(af.t_final(), Some((_, Some(_))));
+            if got != exp && (final_ok || got.len() > exp.len() || !exp.starts_with(&got)) {
                 let kind = if got.len() < exp.len() { "item_lost" } else if got.len() > exp.len() { "item_duplicated" } else { "item_reordered" };
                 rep.fail(P, "R1", kind, format!("stream actor tag {}: stream yielded items {:?} but handled {:?}", af.tag, exp, got), yielded.iter().map(|y| y.0).take(4).collect());
             }
